@@ -193,6 +193,13 @@ func errText(r interface{ Intn(int) int }, s func() string) error {
 	return nil
 }
 
+func trunc16(b []byte) []byte {
+	if len(b) > 16 {
+		return b[:16]
+	}
+	return b
+}
+
 func same(a, b error) bool { return (a == nil) == (b == nil) }
 
 func main() {
@@ -892,11 +899,24 @@ func sequence(r *ev.Run, c *ev.Case, seqNo int) {
 			req := append([]byte{code}, gen.Bytes(rng, []int{0, 1, 255, 64 << 10, 9}[rng.Intn(5)])...)
 			srv.raw = gen.Bytes(rng, []int{0, 1, 255, 64 << 10, 9}[rng.Intn(5)])
 			srv.err = nil
+			failing := rng.Intn(12) == 0
+			if failing {
+				// the served agent cannot relay the request (its own upstream is gone): the caller gets an error, not a reply
+				srv.err = errors.New("upstream unreachable")
+			}
 			trace = append(trace, "forward")
 			got, err := cl.Forward(req)
 			cs := expectCalls("forward", 1)
 			if cs == nil {
 				return
+			}
+			if failing {
+				if err == nil {
+					bad("forward", "error", fmt.Sprintf("the served agent's Forward failed; the client returned %d reply bytes (%x) and no error", len(got), trunc16(got)))
+					return
+				}
+				ok("forward-error", fmt.Sprint(code))
+				return // the connection is not expected to survive that
 			}
 			if cs[0].Op != "forward" || !bytes.Equal(cs[0].Args[0].([]byte), req) {
 				bad("forward", "request-bytes", fmt.Sprintf("%d vs %d bytes", len(cs[0].Args[0].([]byte)), len(req)))
